@@ -45,9 +45,11 @@ MODELLED_NOT_VERIFIED = [
     "C18: retained extinct tips are recognised on the implementation by the library's own is_extinct attribute (None on extinct tips)",
     "C18: tie A (Gen/C18Kernels.lean, harness/gen/c18kernels.py) regenerates the closed-form kernels only (rates handed to expovariate, "
     "thresholds, slot / draw orders, time units, expected waiting times, the weighted-choice step, choose(k,2) for k <= 40 as a table "
-    "computed by the function's own source); the loops around them stay hand-written and are tied by correspondence. The rate traces of "
-    "uniform_pure_birth_tree / pure_kingman_tree (pbRates, kingRates) are closed forms of the model, not derived from its loops; no rate "
+    "computed by the function's own source); the loops around them stay hand-written and are tied by correspondence. The rate trace of "
+    "uniform_pure_birth_tree (pbRates) is a closed form of the model, not derived from its loop (kingRates: kingman_reads_valid_script); no rate "
     "trace for the contained coalescent and GSA; mean_kingman_tree lengths (k-th parts, not dyadic) are compared within 1e-9 relative",
+    "C18: of the treesim wrapper layer only rand_trees over birth_death_tree with one keyword map is modelled (randTrees); the list-of-maps / "
+    "factory forms, coalescence_ages and the other model functions are judged by the wrapper-history oracle (direct run, snapshots, tripwire)",
     "C18: repeat_until_success=False ending in TreeSimTotalExtinctionException, is_assign_extant_taxa / is_assign_extinct_taxa = False and "
     "star_tree are not modelled (double run, tripwires, well-formedness only); as the code stands is_assign_extinct_taxa=False alone "
     "still labels retained extinct tips and is_assign_extant_taxa=False alone labels nothing (both tests read is_assign_extant_taxa) - "
@@ -94,6 +96,13 @@ EXPLANATION = ("Theorems (Props/C18.lean) hold for EVERY draw list, i.e. every b
                "the expected waiting times L*pop/choose(k,2) filled in); contained_kids_stream_independent; tie A bridges kernel_* + rates_getElem (24 theorems: the regenerated rate "
                "formulas, stop / event thresholds, event-slot and gauss-draw orders, daughter rates, discrete thresholds, pure-birth rate, "
                "coalescent rate / time units / expected time / period tests, choose(k,2) table, weighted-choice step are the model's). "
+               "Wave 2: the treesim wrapper layer is in the model (finishS, bdRunS, randTrees = rand_trees(rng, birth_death_tree, map, k), driver op rt, "
+               "compared per case incl. a shared growing namespace): bdRunS_direct / bdRunS_of_direct (the simulator on a generator stream returns "
+               "what the simulator returns on exactly the segment it reads, and leaves the rest), rand_trees_direct_runs (rand_trees returns rs and "
+               "leaves rest IFF the stream splits into k consecutive segments + rest and the direct run on the i-th segment returns the i-th tree; "
+               "the caller's keyword map is a parameter of the model, i.e. read-only by construction - on the code that is oracle clause (c)); "
+               "kingman_reads_valid_script (converse of kingman_succeeds: a successful run has read exactly n-1 events, the j-th inside a pool of "
+               "n-j lineages, so the j-th expovariate call has rate choose(n-j,2) = kingRates). "
                "Determinism (clause d) beyond that is definitional in the model (functions of arguments and draw list); its content is the tie: "
                "tripwires on GLOBAL_RNG / random.*, equal-state double runs with shaken memory layout, fresh-interpreter runs.")
 
@@ -1247,6 +1256,81 @@ def wrapper_case(ctx, dendropy, case):
         ctx.fail(kind, "%s: %s" % (describe(case), what), case)
 
 
+def gen_rt(rng):
+    """rand_trees(rng, birth_death_tree, <one keyword map>, k) under the scripted generator: compared with the model's `randTrees`"""
+    b = Fraction(rng.choice(RATES))
+    p = {"b": str(b), "d": str(b * rng.choice([Fraction(0), Fraction(1, 4), Fraction(1, 2)])), "n": rng.randint(1, 6), "k": rng.randint(1, 4),
+         "ns": rng.choice([None, None, ["t", rng.randint(0, 7)], ["T", rng.randint(0, 4)], ["sp", rng.randint(0, 8)]]),
+         "op": rng.choice(["rand_trees", "rand_trees", "birthdeath_coalescence_ages"])}
+    return {"sim": "rt", "params": p, "rng": gen_script(rng, rng.choice([None, None, ["hi"], ["lo", "hi", "hi"]]) if Fraction(p["d"]) else None)}
+
+
+def rt_case(ctx, dendropy, case, pending):
+    from dendropy.simulate import treesim
+    p = case["params"]
+    runs = []
+    for rep in range(2):
+        rng = make_rng(case["rng"])
+        tns = mk_namespace(dendropy, p["ns"])
+        kw = {"birth_rate": float(Fraction(p["b"])), "death_rate": float(Fraction(p["d"])), "num_extant_tips": p["n"]}
+        if tns is not None:
+            kw["taxon_namespace"] = tns
+        try:
+            with GlobalWatch() as gw:
+                with time_limit(30):
+                    trees = list(treesim.rand_trees(rng, treesim.birth_death_tree, kw, p["k"]))
+                    ages = None
+                    if p["op"] == "birthdeath_coalescence_ages":
+                        # the ages wrapper draws the same trees: run it on a second generator in the same state and compare the ages
+                        from dendropy.calculate import treemeasure
+                        kw2 = dict(kw)
+                        if tns is not None:
+                            kw2["taxon_namespace"] = mk_namespace(dendropy, p["ns"])
+                        ages = (repr(treesim.birthdeath_coalescence_ages(make_rng(case["rng"]), kw2, p["k"])),
+                                repr([treemeasure.coalescence_ages(t) for t in trees]))
+        except ScriptExhausted:
+            ctx.count("script_exhausted")
+            return
+        except Timeout:
+            ctx.fail("hang", "%s did not return within 30 s" % describe(case), case)
+            return
+        runs.append((trees, rng, gw.touched(), ages))
+    trees, rng, touched, ages = runs[0]
+    rec = full_case(case, rng)
+    problems = []
+    if touched or runs[1][2]:
+        problems.append(("global_rng/wrapper", "an explicit rng was supplied, yet the call also used: %s" % " and ".join(touched or runs[1][2])))
+    c0, c1 = [canon(t, True) for t in trees], [canon(t, True) for t in runs[1][0]]
+    if c0 != c1 or rng.log != runs[1][1].log:
+        problems.append(("nondeterministic", "two runs from equal generator states differ: %s vs %s" % (str(c0)[:250], str(c1)[:250])))
+    if ages is not None and ages[0] != ages[1]:
+        problems.append(("wrapper_stale_state", "birthdeath_coalescence_ages returned %s, the trees of rand_trees from an equal generator state have ages %s" % (ages[0][:200], ages[1][:200])))
+    if len(trees) != p["k"]:
+        problems.append(("tip_count", "%d replicates asked for, %d trees returned" % (p["k"], len(trees))))
+    for t in trees:
+        o_shape(t, problems)
+        o_taxa(t, problems)
+        rd = root_dists(t, True)
+        if len(rd) != p["n"]:
+            problems.append(("tip_count", "num_extant_tips=%d: a replicate has %d leaves" % (p["n"], len(rd))))
+        if rd and not all(x == rd[0] for x in rd):
+            problems.append(("equidistant", "extant tips of a replicate are at root distances %s" % sorted(set(str(x) for x in rd))[:6]))
+    ctx.case([case["sim"], p, case["rng"]], p["k"] >= 2, sample={"case": case}, kind="rt/script")
+    seen = set()
+    for kind, what in problems:
+        if kind not in seen:
+            seen.add(kind)
+            ctx.fail(kind, "%s: %s" % (describe(case), what), rec)
+    if not problems:
+        try:
+            want = "ok " + " | ".join(model_text(t, (lambda tn: (lambda nd: str(tn.accession_index(nd.taxon))))(t.taxon_namespace)) for t in trees)
+            n0 = 0 if p["ns"] is None else p["ns"][1]
+            line = " ".join(["rt", str(p["k"]), "0" if p["ns"] is None else "1", str(p["n"]), "-", str(rate_int(p["b"])), str(rate_int(p["d"])), str(n0)] + rng.log)
+            pending.append((line, rec, ("RAW", want)))
+        except ValueError as e:
+            ctx.note("not comparable: %s" % e)
+
+
 # ------------------------------------------------------------------------------------------------ one case
 def describe(case):
     return "%s %s rng=%s" % (case["sim"], json.dumps(case["params"], sort_keys=True), case["rng"]["kind"])
@@ -1258,6 +1342,8 @@ def one_case(ctx, dendropy, case, pending, compare=True):
         return history_case(ctx, dendropy, case, pending)
     if sim == "wrap_hist":
         return wrapper_case(ctx, dendropy, case)
+    if sim == "rt":
+        return rt_case(ctx, dendropy, case, pending)
     scripted = case["rng"]["kind"] == "script"
     exact = scripted and sim != "mking"      # mean_kingman_tree: lengths are k-th parts, not dyadic, under either generator
     runs = []
@@ -2083,7 +2169,7 @@ def run(ctx):
         if rng.random() < 0.05:
             case = gen_hist(rng)
         if rng.random() < 0.06:
-            case = gen_wrap_hist(rng)
+            case = gen_wrap_hist(rng) if rng.random() < 0.65 else gen_rt(rng)
         if rng.random() < 0.07:
             case = gen_gsa(rng, max_n)
         if rng.random() < 0.004:
@@ -2091,7 +2177,7 @@ def run(ctx):
             sim0 = rng.choice(["pb", "king"])
             case = {"sim": sim0, "params": {"ns": ["sp", 0], "b": "1", "pop": 1}, "rng": gen_script(rng), "expect_error": True}
         one_case(ctx, dendropy, case, pending)
-        if case["sim"] not in ("rv", "cont_hist", "gsa", "wrap_hist") and not case.get("expect_error") and len(fresh) < ctx.pick(16, 60) and rng.random() < 0.2:
+        if case["sim"] not in ("rv", "cont_hist", "gsa", "wrap_hist", "rt") and not case.get("expect_error") and len(fresh) < ctx.pick(16, 60) and rng.random() < 0.2:
             fresh.append(case)
         if len(pending) >= 300:
             flush(ctx, pending)
